@@ -14,7 +14,8 @@ fn brute_partition(adm: &[u64], limit: usize, p: u64) -> bool {
             let k = start + size; // next group starts at k
             // cut between adm[k-1] and adm[k], at least p after the previous cut
             let lo = (earliest_cut + p as i64).max(adm[k - 1] as i64);
-            if lo <= adm[k] as i64 && rec(adm, k, lo, limit, p) {
+            // equal timestamps are one instant and belong to one window
+            if adm[k - 1] != adm[k] && lo <= adm[k] as i64 && rec(adm, k, lo, limit, p) {
                 return true;
             }
         }
